@@ -36,6 +36,18 @@ fn main() {
             };
             std::process::exit(run_check(p.as_ref(), tier));
         }
+        "explore-child" => {
+            // explore-child <ID> <tier> <seed> <from> <to>
+            if args.len() < 7 {
+                usage();
+            }
+            let Some(p) = props::by_id(&args[2]) else { std::process::exit(2) };
+            let tier = if args[3] == "thorough" { Tier::Thorough } else { Tier::Quick };
+            let seed: u64 = args[4].parse().unwrap_or(0);
+            let from: u64 = args[5].parse().unwrap_or(0);
+            let to: u64 = args[6].parse().unwrap_or(0);
+            std::process::exit(framework::explore_child(p.as_ref(), tier, seed, from, to));
+        }
         "replay" => {
             if args.len() < 4 {
                 usage();
